@@ -325,6 +325,40 @@ async fn metrics_middleware(
     response
 }
 
+/// Verification entry points (cfg(iroh_verif) only): the pkarr PUT and GET handlers, called
+/// in-process with the arguments axum would extract.
+#[cfg(iroh_verif)]
+pub(crate) mod verif {
+    use axum::{
+        extract::{Path, State},
+        response::IntoResponse,
+    };
+    use bytes::Bytes;
+
+    use crate::state::AppState;
+
+    /// `PUT /pkarr/:key`
+    pub(crate) async fn pkarr_put(state: AppState, key: String, body: Bytes) -> u16 {
+        match super::pkarr::put(State(state), Path(key), body).await {
+            Ok(r) => r.into_response().status().as_u16(),
+            Err(e) => e.into_response().status().as_u16(),
+        }
+    }
+
+    /// `GET /pkarr/:key`: status and body
+    pub(crate) async fn pkarr_get(state: AppState, key: String) -> (u16, Bytes) {
+        let resp = match super::pkarr::get(State(state), Path(key)).await {
+            Ok(r) => r.into_response(),
+            Err(e) => e.into_response(),
+        };
+        let status = resp.status().as_u16();
+        let body = axum::body::to_bytes(resp.into_body(), 1 << 20)
+            .await
+            .unwrap_or_default();
+        (status, body)
+    }
+}
+
 #[cfg(test)]
 mod tests {
     use std::{
